@@ -14,4 +14,5 @@ EXES = [
     {"name": "streams", "sources": ["harness/streams.cpp"]},
     {"name": "timers", "sources": ["harness/timers.cpp"]},
     {"name": "anyw", "sources": ["harness/anyw.cpp"]},
+    {"name": "coro", "sources": ["harness/coro.cpp"]},
 ]
